@@ -108,6 +108,110 @@ theorem exactly_one (n : Nat) (special : Bool) (pr : Option Nat) (T mt : Int) (p
       rw [index_eq d p n hdn hpn hn']
       exact ⟨(p + d) % n, ⟨Nat.mod_lt _ hn, rfl⟩, fun r' h => by injection h with h; exact h.symm⟩
 
+/-! ### Go's division panics (the generated arithmetic is total; the hand model restores the panic) -/
+
+/-- under the hypotheses of all schedule theorems (`0 < n`, `0 < T`) the panic-aware function is `correctMiner` -/
+theorem correctMinerGo_eq (n : Nat) (special : Bool) (pr : Option Nat) (T mt : Int) (pts ph : Nat)
+    (hn : 0 < n) (hT : 0 < T) :
+    correctMinerGo n special pr pts ph mt T = correctMiner n special pr pts ph mt T := by
+  unfold correctMinerGo correctMiner
+  have hne : ¬ ((n : Int) * T = 0) := by
+    have : (0 : Int) < n * T := Int.mul_pos (by exact_mod_cast hn) hT
+    omega
+  cases h : GetCorrectMiner (mineTime := mt) (mineTimeout := T) (parent_Time := pts) (nodeCount := (n : Int))
+      (parent_Height := ph) (parent_MinerAddress := 0) with
+  | panic => rfl
+  | err e => rfl
+  | ok v => simp [hne]
+
+/-- with `0 < n`, `0 < T` and a stamp that passes both checks the lookup gets a distance `≥ 1`: no panic -/
+theorem correctMiner_ne_panic (n : Nat) (special : Bool) (pr : Option Nat) (T mt : Int) (pts ph : Nat)
+    (hn : 0 < n) (hn' : n < 1000000000) (hT : 0 < T) (hms : 10000000000 ≤ mt) (hpt : (pts : Int) * 1000 ≤ mt) :
+    correctMiner n special pr pts ph mt T ≠ .panic := by
+  unfold correctMiner
+  rw [getCorrectMiner_ok n T mt pts ph 0 hn hT hms hpt]
+  obtain ⟨d, hd1, hdn, hd, _⟩ := dist_toU n T ((pts : Int) * 1000) mt hn hn' hT hpt
+  simp only [hd]
+  unfold deputyByDistance
+  have hd' : ¬ d < 1 := by omega
+  have hn0 : (n == 0) = false := by simp; omega
+  simp only [hd', hn0, if_false, Bool.false_eq_true]
+  cases special <;> cases pr <;> simp
+
+/-- **correctMinerGo_panics_iff**: the call crashes exactly when the stamp passes both error checks and the round
+    length `n·T` is zero — a term without deputies (not loaded / not yet stable) or a zero timeout.  The callers
+    must exclude it: `verifySigner` rejects first on the validator path (C02 `turnCore`), `isSelfDeputyNode` on the
+    miner path. -/
+theorem correctMinerGo_panics_iff (n : Nat) (special : Bool) (pr : Option Nat) (T mt : Int) (pts ph : Nat)
+    (hn' : n < 1000000000) (hT' : 0 ≤ T) :
+    correctMinerGo n special pr pts ph mt T = .panic ↔
+      (10000000000 ≤ mt ∧ (pts : Int) * 1000 ≤ mt ∧ (n = 0 ∨ T = 0)) := by
+  unfold correctMinerGo
+  by_cases h1 : mt < 10000000000
+  · have : GetCorrectMiner (mineTime := mt) (mineTimeout := T) (parent_Time := pts) (nodeCount := (n : Int))
+        (parent_Height := ph) (parent_MinerAddress := 0) = .err "ErrSmallerMineTime" := by
+      unfold GetCorrectMiner; simp [h1]
+    rw [this]; constructor
+    · intro h; cases h
+    · intro h; omega
+  · by_cases h2 : mt - (Int.ofNat pts) * 1000 < 0
+    · have h2' : mt < (pts : Int) * 1000 := by
+        have : (Int.ofNat pts) = (pts : Int) := rfl
+        omega
+      have : GetCorrectMiner (mineTime := mt) (mineTimeout := T) (parent_Time := pts) (nodeCount := (n : Int))
+          (parent_Height := ph) (parent_MinerAddress := 0) = .err "ErrSmallerMineTime" := by
+        unfold GetCorrectMiner; simp [h1, h2']
+      rw [this]; constructor
+      · intro h; cases h
+      · intro h
+        have : (Int.ofNat pts) = (pts : Int) := rfl
+        omega
+    · have h2' : ¬ mt < (pts : Int) * 1000 := by
+        have : (Int.ofNat pts) = (pts : Int) := rfl
+        omega
+      have hok : ∃ v, GetCorrectMiner (mineTime := mt) (mineTimeout := T) (parent_Time := pts) (nodeCount := (n : Int))
+          (parent_Height := ph) (parent_MinerAddress := 0) = .ok v := by
+        unfold GetCorrectMiner; simp [h1, h2']
+      obtain ⟨v, hv⟩ := hok
+      rw [hv]
+      have hpts : (Int.ofNat pts) = (pts : Int) := rfl
+      by_cases hz : (n : Int) * T = 0
+      · simp only [hz, beq_self_eq_true, if_true, true_iff]
+        refine ⟨by omega, by omega, ?_⟩
+        rcases Int.mul_eq_zero.mp hz with h | h
+        · left; exact_mod_cast h
+        · right; exact h
+      · have hbeq : ((n : Int) * T == 0) = false := by simpa using hz
+        simp only [hbeq, Bool.false_eq_true, if_false]
+        have hn : 0 < n := by
+          rcases Nat.eq_zero_or_pos n with h | h
+          · exact absurd (by rw [h]; simp) hz
+          · exact h
+        have hT : 0 < T := by
+          rcases Int.lt_or_eq_of_le hT' with h | h
+          · exact h
+          · exact absurd (by rw [← h]; simp) hz
+        constructor
+        · intro hp
+          exact absurd hp (correctMiner_ne_panic n special pr T mt pts ph hn hn' hT (by omega) (by omega))
+        · intro h; omega
+
+/-- **divisors_accounted**: the complete list of variable divisors in the regenerated schedule arithmetic (emitted by
+    the translator from the current source) is the list this file accounts for.  `oneLoopTime = n·T` and
+    `mineTimeout = T` of `GetCorrectMiner`: `correctMinerGo` panics (C02's `turnCore` likewise); `oneLoopTime` of
+    `GetNextMineWindow`: only reached from `miner.schedule` after `GetMyMinerAddress` succeeded (the term is loaded,
+    `0 < n`), theorems assume `0 < n`, `0 < T`; `nodeCount` of the three index expressions: `GetDeputyByDistance`
+    returns ErrNotDeputy for an empty list first (`deputyByDistance`), `GetMinerDistance` fails to find the target
+    first; `params.TermDuration`: a non-zero configuration constant.  A new variable division in the source changes a
+    list and breaks this theorem. -/
+theorem divisors_accounted :
+    GetCorrectMiner_divisors = ["oneLoopTime", "mineTimeout"] ∧ GetNextMineWindow_divisors = ["oneLoopTime"] ∧
+    byDistanceRewardIndex_divisors = ["nodeCount"] ∧ byDistanceIndex_divisors = ["nodeCount"] ∧
+    minerDistanceRanks_divisors = ["nodeCount"] ∧ IsRewardBlock_divisors = ["params.TermDuration"] ∧
+    IsSnapshotBlock_divisors = ["params.TermDuration"] ∧ GetSignerTermIndexByHeight_divisors = ["params.TermDuration"] ∧
+    GetDeputyTermIndexByHeight_divisors = ["params.TermDuration"] ∧ GetLastSnapshotHeight_divisors = ["params.TermDuration"] := by
+  decide
+
 /-- **rotation**: the `k`-th slot after the parent (k ≥ 0, any number of elapsed rounds) belongs to
     rank `(r_parent + k + 1) mod n`, and to rank `k mod n` at height 1 / the first block of a term. -/
 theorem rotation (n : Nat) (special : Bool) (pr : Option Nat) (T mt : Int) (pts ph k : Nat) (r : Int)
